@@ -60,13 +60,13 @@ def c41_runs(tier):
     return runs
 
 
-reg('C41', level='model_checking', runs=c41_runs, quick_budget_s=300, thorough_budget_s=1800,
+reg('C41', level='model_checking', runs=c41_runs, quick_budget_s=400, thorough_budget_s=1800,
     technique='stateless model checking of the real SmallBufferAllocator (thread-local caches, moodycamel central store, backing-store spin lock) with an ownership map; TSan and ASan legs; spurious weak-CAS failures',
     level_text='1-3 threads (plus helper threads that exit) running histories of <=3 operations over {alloc, dealloc own, hand a block to another thread which deallocates it, approxBytesAllocatedSmallBuffer, thread exit returning the cache}, block sizes 8/64/256 (512 = alignedMalloc path), on a cold allocator and on three warmed states (central store filled; cache one short of the recycle threshold; central store drained); every interleaving with <=2 deviations for two threads at size 256 (<=1 for three threads and the bigger sizes in quick). Oracle: address map of live blocks (no block handed out twice, no overlap, alignment = size, block inside a backing-store slab, contents of a live block untouched), occupancy of the backing-store critical section (a slab creation and an approxBytes call never overlap), lock word free at quiescence, and a final drain by T0 of every block the allocator owns (a block sitting twice in the caches or the central store is handed out twice there); the same shapes under ThreadSanitizer must be race free.',
     level_note='SC interleavings; weak-CAS spurious failures explored (casfail=2); TSan legs on five shapes, ASan legs on three. The allocator globals are rebuilt before every execution (cold start), warm paths are reached by a single-threaded prefix inside the body.',
     design_ref='DESIGN.md section 4, C41', assumptions=MC_ASSUME, rule=RULE,
     guards=[need_cover('sba_create_slab', 'sba_central_dequeue', 'sba_tl_pop', 'sba_foreign_dealloc', 'sba_recycle', 'sba_exit_with_cache',
-                       'sba_bytes', 'sba_helper', 'sba_partial_dequeue', 'sba_drain_exact'), need_outcomes(20)])
+                       'sba_bytes', 'sba_helper', 'sba_partial_dequeue', 'sba_drain_exact'), need_outcomes(10)])
 
 
 # ---------------------------------------------------------------------------------------------- C42
@@ -95,7 +95,7 @@ def c42_runs(tier):
     return runs
 
 
-reg('C42', level='model_checking', runs=c42_runs, quick_budget_s=300, thorough_budget_s=1500,
+reg('C42', level='model_checking', runs=c42_runs, quick_budget_s=400, thorough_budget_s=1500,
     technique='stateless model checking of the real PoolAllocator (spin lock, slab carving) with logging allocFunc/deallocFunc and a chunk ownership map; exhaustive serial histories of NoLockPoolAllocator via mc::choose',
     level_text='PoolAllocator: 2 threads x every pair and 3 threads x every multiset (quick: six) of the seven non-trivial programs of <=3 operations over {alloc, dealloc newest, dealloc oldest}, chunk/slab sizes (8,8), (8,16), (16,64), every interleaving with <=3 deviations for two threads (4 thorough) and <=2 for three (3 thorough). NoLockPoolAllocator: every serial history of depth 5 (6 thorough) over {alloc, dealloc newest, dealloc oldest, clear, alloc one slab worth}. Oracle: every chunk lies in a live slab obtained from allocFunc, is disjoint from every live chunk and is not handed out again before its dealloc; contents of live chunks untouched; after clear() allocFunc is not called until every recycled slab has been reused; totalChunkCapacity(); deallocFunc exactly once per slab and only during destruction.',
     level_note='SC interleavings. The critical sections of PoolAllocator contain no scheduling point, so a locking error does not change any outcome of the serialised plain runs; it is the TSan legs (every pair of programs at (8,16) with <=2 deviations, quick: of three programs; one three-thread shape) that would report it. ASan legs on one concurrent shape and the serial enumeration at depth 4 (5 thorough).',
@@ -112,7 +112,8 @@ def c37_runs(tier):
     # sequential: copies of arenas with every buffer count 1..6 (nb=0), plain and ASan+LSan
     for bs in (1, 2, 4):
         runs.append(McRun(B, 'arena_copy', dict(bs=bs, nb=0), bound=0, budget=30))
-        runs.append(McRun(B, 'arena_copy', dict(bs=bs, nb=0), bound=0, mode='asan', budget=90))
+        if bs < 4 or not q:
+            runs.append(McRun(B, 'arena_copy', dict(bs=bs, nb=0), bound=0, mode='asan', budget=60 if q else 200))
     # concurrent growth: T0 and T1 one grow_by each, every multiset of amounts, every buffer size
     for bs in (1, 2, 4):
         rd = 1 if (bs == 2 or not q) else 0
@@ -132,7 +133,7 @@ def c37_runs(tier):
     return runs
 
 
-reg('C37', level='model_checking', runs=c37_runs, quick_budget_s=300, thorough_budget_s=1500,
+reg('C37', level='model_checking', runs=c37_runs, quick_budget_s=400, thorough_budget_s=1500,
     technique='stateless model checking of the real ConcurrentObjectArena::grow_by (CAS loop, locked buffer allocation, pointer-array regrowth) plus exhaustive sequential enumeration of copies/moves/swaps under ASan',
     level_text='Concurrent: buffer sizes 1/2/4 (1 is the minimum), T0 and T1 each grow_by(k), every pair k in {1,2,3,5}, a third thread holding &arena[0] and re-reading the elements that existed before; multi-call and three-grower shapes; every interleaving with <=2 deviations (3 for the two-grower pairs in thorough). Oracle: every returned range inside [0,size()), ranges pairwise disjoint and tiling [0,size()), every element of a returned range default-constructed when grow_by returns and still owned by its grower at the end (no re-construction), &arena[0] and the old elements unchanged, capacity()/numBuffers()/getBufferSize() consistent. Sequential: arenas grown to 1..6 internal buffers (every fill of the last buffer, one-shot and element-wise), then copy-construct, copy-assign, move-construct, move-assign, swap; size, geometry and every element compared, the result grown across a buffer boundary, deep-copy independence; plain and ASan+LSan builds.',
     level_note='SC interleavings; TSan leg on one concurrent shape, ASan legs on one concurrent shape and on the whole sequential enumeration.',
@@ -187,10 +188,53 @@ def c33_runs(tier):
     return runs
 
 
-reg('C33', level='model_checking', runs=c33_runs, quick_budget_s=360, thorough_budget_s=1800,
+reg('C33', level='model_checking', runs=c33_runs, quick_budget_s=400, thorough_budget_s=1800,
     technique='stateless model checking of the real ConcurrentVector growth paths (index reservation, single and range bucket allocation, the unsynchronised buffer-assignment step, the bare spin on a missing bucket) with a lifetime-tracked element type',
     level_text='kDefaultCapacity 2 and 4 (first bucket 1 or 2 elements, so every growth amount used crosses bucket boundaries) x all three realloc strategies x inline/heap buffer pointers x fast/compact iterators; 2 growers x pairs of {push_back(const&), push_back(&&), emplace_back, grow_by(k,value), grow_by(k), grow_by_generator, grow_by(range), grow_by(init-list), grow_to_at_least(n,value), grow_to_at_least(n)} (quick: every operation against grow_by(3,v) and emplace_back; thorough: all pairs), each from every initial size 0..5 so that the growth starts at every offset relative to the bucket boundaries, 3 growers, two-operation programs; a reader thread holding a reference, a pointer and an iterator to element 0 and re-reading every element published before the growers started; every interleaving with <=2 deviations. Oracle: returned iterators/ranges inside [0,size()), pairwise disjoint, every element of a returned range holds its writer\'s value at return and at the end, final size == total growth, every slot constructed exactly once and destroyed exactly once (lifetime registry), element 0 at the same address with the same value.',
     level_note='SC interleavings; TSan legs on two shapes, ASan legs on two shapes.',
     design_ref='DESIGN.md section 4, C33', assumptions=MC_ASSUME, rule=RULE,
     guards=[need_cover('cvec_bucket_allocated', 'cvec_two_buckets_allocated', 'cvec_range_spans_buckets', 'cvec_range_spans_3_buckets', 'cvec_reader',
                        'cvec_grow_to_at_least'), need_outcomes(100)])
+
+
+# ---------------------------------------------------------------------------------------------- C26
+def c26_runs(tier):
+    runs = []
+    B = 'c26_timed_task'
+    q = tier == 'quick'
+
+    def tt(params, bound, mode='plain', opts=None, budget=90):
+        runs.append(McRun(B, 'timed', params, bound=bound, mode=mode, opts=opts or {}, budget=budget))
+    acts, whens = '0|1|2', '0|1|2|3|4'
+    # kImmediateInvoker: the call runs on the kicking thread (T0 for a task that is already due, else the scheduler thread)
+    for n, per, steady, delay in [(1, 0, 0, 0), (1, 0, 0, 300), (2, 0, 0, 0), (2, 0, 0, 300), (2, 1000, 0, 300), (3, 1000, 1, 300), (3, 0, 0, 0), (3, 1000, 0, 0)]:
+        fa = '|'.join(str(j) for j in range(0, n + 1))
+        tt(dict(pool=0, n=n, per=per, steady=steady, delay=delay, fa=fa, act=acts, when=whens), 2 if q else 3, budget=90 if q else 300)
+    # ThreadPool(1): the call runs on the pool thread, three threads plus T0
+    for n, per, steady, delay in [(1, 0, 0, 300), (2, 0, 0, 0), (2, 1000, 0, 300)] + ([] if q else [(1, 0, 0, 0), (3, 1000, 1, 300), (3, 0, 0, 0)]):
+        fa = '|'.join(str(j) for j in range(0, min(n, 2) + 1))
+        tt(dict(pool=1, n=n, per=per, steady=steady, delay=delay, fa=fa, act=acts, when='0|2|3|4'), 1, budget=120 if q else 300)
+    if not q:
+        tt(dict(pool=1, n=1, per=0, delay=300, fa=0, act='1|2', when='0|4'), 2, budget=600)
+        tt(dict(pool=1, n=2, per=0, delay=0, fa='0|1', act='0|2', when='0|3'), 2, budget=600)
+    # timers racing the other threads (a timed wait may expire while others are still runnable)
+    tt(dict(pool=0, n=2, per=1000, steady=0, delay=300, fa='0|1', act=acts, when='0|1|4'), 2, opts=dict(timeout_race=1), budget=120)
+    # sanitizer legs: ASan sees a cleared function object being used, TSan the unsynchronised access to it
+    sb = 70 if q else 200
+    tt(dict(pool=1, n=1, per=0, delay=300, fa=0, act='1|2', when=4), 1, mode='asan', budget=sb)
+    tt(dict(pool=1, n=2, per=0, delay=0, fa='0|1', act=0), 1, mode='asan', budget=sb)
+    tt(dict(pool=0, n=2, per=0, delay=0, fa='0|1', act=acts, when=0), 1, mode='tsan', budget=sb)
+    if not q:
+        tt(dict(pool=0, n=2, per=0, delay=0, fa='0|1', act=acts, when='0|4'), 1, mode='asan', budget=sb)
+        tt(dict(pool=1, n=1, per=0, delay=300, fa=0, act='1|2', when=4), 1, mode='tsan', budget=sb)
+    runs.sort(key=lambda r: r.mode == 'plain')
+    return runs
+
+
+reg('C26', level='model_checking', runs=c26_runs, quick_budget_s=400, thorough_budget_s=1800,
+    technique='stateless model checking of the real TimedTaskScheduler / TimedTask (private scheduler instance, its timing thread, kickOffTask, the wrapped call, cancel, ~TimedTask) under a virtual clock; ASan and TSan legs',
+    level_text='Backing schedulable kImmediateInvoker or ThreadPool(1); timesToRun 1..3, period 0 or 1 ms, normal/steady, first run already due (kicked off by schedule() on the caller) or 300 us ahead (kicked off by the scheduler thread); the function returns false at call j for every j; T0 either waits for all calls, or cancel()s, or destroys the task, at five positions (right after schedule(); after sleeping to the scheduled time; while the first call is inside the function; after it returned; when a kick-off has just taken its run from timesToRun); every interleaving with <=2 deviations for the immediate invoker (3 thorough) and <=1 for the pool (2 on two shapes in thorough), one shape with timers racing. Oracle inside the function: calls <= timesToRun, none after a false, none earlier than the first scheduled virtual time (10 us kick-off tolerance of the library allowed), none starts after cancel() returned, none starts or is in progress after ~TimedTask returned, function object alive for the whole call (canary; ASan in the asan legs); every expected call happens when nobody cancels (otherwise deadlock verdict).',
+    level_note='SC interleavings, virtual monotone clock (dispenso::getTime() reads it). A window made only of plain code (between the wrapped call\'s cancelled check and the call of the function) contains no scheduling point and is not split; the TSan legs cover unsynchronised accesses there.',
+    design_ref='DESIGN.md section 4, C26', assumptions=MC_ASSUME, rule=RULE,
+    guards=[need_cover('timed_all_calls', 'timed_cancel', 'timed_cancel_before_first_call', 'timed_cancel_during_call', 'timed_destroy_during_call',
+                       'timed_destroy_before_first_call', 'timed_repeated', 'timed_returned_false', 'timed_act_at_kickoff'), need_outcomes(50)])
